@@ -40,6 +40,7 @@ structure KT (p : Prog) (T : List Nat) (K : RK) : Prop where
   ign : K.ign = allParamSlots p
   calls : ∃ l, K.okCalls = some l ∧ ∀ g ∈ l, g ∈ T
   callees : K.callees = calleesOf p
+  strict : K.strict = false
 
 section
 variable {cx : Ctx} {p : Prog} {S T : List Nat}
@@ -49,7 +50,7 @@ theorem keep_prim (hC : PresCtx cx p S T) {K : RK} (hK : KT p T K) {op : String}
     (hsig : primSigK K op = some (k, n)) {imms : List String} {w w2 : World} {st st' : List Val}
     (h : execPrim cx op imms w st = .ok (st', w2)) : Keep S w w2 := by
   intro s hs
-  exact execPrim_ign hsig cx imms h s (hK.ign ▸ hC.sub s hs)
+  exact execPrim_ign hK.strict hsig cx imms h s (hK.ign ▸ hC.sub s hs)
 
 theorem keep_set {K : RK} (hC : PresCtx cx p S T) (hK : KT p T K) {w : World} {v : Nat} {x : Val}
     (hv : v ∉ K.ign) : Keep S w { w with scratch := setSlot w.scratch v x } := by
@@ -128,7 +129,7 @@ theorem pres_call (hC : PresCtx cx p S T) (ih : PresAll cx p S T fuel) {cur : Op
       exact k1
     · rw [if_neg hlen] at h
       rcases hbody : eval ⟨cx, p, some f⟩ fuel sd.body (bindW sd st w1) with ⟨r3, w3⟩
-      have hKb : KT p T (subK true p sd) := ⟨rfl, ⟨_, rfl, hcallsb⟩, rfl⟩
+      have hKb : KT p T (subK true p sd) := ⟨rfl, ⟨_, rfl, hcallsb⟩, rfl, rfl⟩
       have k2 : Keep S w1 w3 :=
         (keep_bindW hC hparb st w1).trans (ih.ev (some f) sd.body _ r3 w3 _ false true _ hKb hwtb hbody)
       have A : Keep S w w3 := k1.trans k2
@@ -206,7 +207,7 @@ theorem presAll_succ (hC : PresCtx cx p S T) (ih : PresAll cx p S T fuel) : Pres
             rw [hB] at h
             simp only [] at h
             have k2 : Keep S w1 w2 := fun s hs =>
-              execPrim_ign (K := { K with dyn := false }) hsig cx imms hB s (hK.ign ▸ hC.sub s hs)
+              execPrim_ign (K := { K with dyn := false }) hK.strict hsig cx imms hB s (hK.ign ▸ hC.sub s hs)
             split at h
             · cases h
               refine k1.trans (k2.trans ?_)
@@ -443,19 +444,20 @@ theorem findSub_id {p : Prog} {g : Nat} {sd : SubDef} (h : findSub p g = some sd
   have := List.find?_some h
   simpa using this
 
-theorem callInv_fp_of {P : PCtx} (hfp : P.fp = true) (hdyn : P.dyn = false) (hpnd : nodupB (allParamSlots P.p) = true)
+theorem callInv_fp_of {P : PCtx} (hfp : P.fp = true) (hdyn : P.dyn = false) (hstr : P.strict = false) (hpnd : nodupB (allParamSlots P.p) = true)
     (hsubs : ∀ f sd, findSub P.p f = some sd → Present P f → subOkC true P.p sd = true)
     (hreach : ∀ f0 sd0, findSub P.p f0 = some sd0 → Present P f0 → ∀ g ∈ okCallsOf P.p sd0,
       sd0.reenters.contains g = false → ∀ h ∈ reachSet P.p g, Present P h) : CallInv P := by
   intro X cfg K cur hR f sd st w1 fuel r3 w3 hsd hallow hlen hev hinv _
-  have hsref : P.sref = false := by simp [PCtx.sref, hfp]
   have hpnd' : (P.p.subs.flatMap (fun sd => sd.params.map (·.2))).Nodup := nodupB_nodup _ hpnd
   cases hR with
-  | main _ _ _ hi => rw [hi, PCtx.vinv, hsref]; trivial
+  | main _ _ _ hi => rw [hi, PCtx.vinv, hstr]; trivial
   | sub _ hfp' => rw [hfp] at hfp'; cases hfp'
-  | @subFp f0 sd0 fr cs' st0 σc hpg hfp0 hsd0 hr0 hcs hpr hbase hl0 hh hign hi hdev0 hprot0 =>
-    have hpres0 : Present P f0 := RoutOK.present (.subFp hpg hfp0 hsd0 hr0 hcs hpr hbase hl0 hh hign hi hdev0 hprot0)
+  | @subFp f0 sd0 fr cs' st0 σc hpg hfp0 hsd0 hr0 hcs hpr hbase hl0 hh hign hi hdev0 hprot0 hact0 =>
+    have hpres0 : Present P f0 := RoutOK.present (.subFp hpg hfp0 hsd0 hr0 hcs hpr hbase hl0 hh hign hi hdev0 hprot0 hact0)
     rw [hi] at hinv ⊢
+    refine ⟨?_, by rw [PCtx.vinv, hstr]; trivial⟩
+    replace hinv := hinv.1
     have hmem0 : sd0 ∈ P.p.subs := List.mem_of_find?_eq_some hsd0
     have hok0 := hsubs f0 sd0 hsd0 hpres0
     simp only [subOkC, Bool.and_eq_true, List.all_eq_true, Bool.not_true, Bool.false_or, List.contains_eq_mem,
@@ -465,7 +467,7 @@ theorem callInv_fp_of {P : PCtx} (hfp : P.fp = true) (hdyn : P.dyn = false) (hpn
     have hs0 : pr.1 ∈ sd0.params.map (·.2) := (List.of_mem_zip hprm).1
     obtain ⟨kv0, hkv0, hkv02⟩ := List.mem_map.mp hs0
     -- the call is allowed: `f` is re-entrant for `f0`, or cannot reach it
-    simp only [callAllowed, subK, hfp, hdyn, if_true, okCallsOf, List.contains_eq_mem, decide_eq_true_eq, List.mem_filter,
+    simp only [callAllowed, subK, hfp, hdyn, hstr, Bool.false_eq_true, if_false, if_true, okCallsOf, List.contains_eq_mem, decide_eq_true_eq, List.mem_filter,
       Bool.or_eq_true, Bool.and_eq_true, Bool.not_eq_true', decide_eq_false_iff_not] at hallow
     by_cases hre : sd0.reenters.contains f = true
     · -- re-entrant: the cell is restored
@@ -513,7 +515,7 @@ theorem callInv_fp_of {P : PCtx} (hfp : P.fp = true) (hdyn : P.dyn = false) (hpn
         obtain ⟨sdf, hsdf, hwtf, hcallsf, hparf⟩ := hC.body f hfT
         rw [hsd] at hsdf
         cases hsdf
-        have hKb : KT P.p (reachSet P.p f) (subK true P.p sd) := ⟨rfl, ⟨_, rfl, hcallsf⟩, rfl⟩
+        have hKb : KT P.p (reachSet P.p f) (subK true P.p sd) := ⟨rfl, ⟨_, rfl, hcallsf⟩, rfl, rfl⟩
         have k := (keep_bindW hC hparf st w1).trans
           ((pres_all hC fuel).ev (some f) sd.body _ r3 w3 _ false true _ hKb hwtf hev)
         have := k pr.1 hs0
@@ -522,11 +524,11 @@ theorem callInv_fp_of {P : PCtx} (hfp : P.fp = true) (hdyn : P.dyn = false) (hpn
         exact hinv pr hprm
 
 /-- whole programs generated by `genProg`: every declared routine has a graph -/
-theorem callInv_fp {P : PCtx} (hfp : P.fp = true) (hdyn : P.dyn = false) (hfrag : inFragmentC true P.p = true)
+theorem callInv_fp {P : PCtx} (hfp : P.fp = true) (hdyn : P.dyn = false) (hstr : P.strict = false) (hfrag : inFragmentC true P.p = true)
     (hall : ∀ f sd, findSub P.p f = some sd → Present P f) : CallInv P := by
   simp only [inFragmentC, Bool.and_eq_true, List.all_eq_true, Bool.not_true, Bool.false_or] at hfrag
   obtain ⟨⟨⟨_, hsubs⟩, _⟩, hpnd⟩ := hfrag
-  refine callInv_fp_of hfp hdyn hpnd (fun f sd hsd _ => hsubs sd (List.mem_of_find?_eq_some hsd)) ?_
+  refine callInv_fp_of hfp hdyn hstr hpnd (fun f sd hsd _ => hsubs sd (List.mem_of_find?_eq_some hsd)) ?_
   intro f0 sd0 hsd0 _ g hg _ h hh
   -- members of a closed set are declared
   have hg' := hg
